@@ -28,11 +28,31 @@
                                 under the memory hypothesis (D08f) and `filesNotMapping` of the
                                 torrent that is built (D07f) — no fourth alternative left.
   * `C08_returned_dump_deep`    too deep for the frames left ⇒ MetainfoError (fix 19d011f, ex-D08g).
-  * `C08_magnet_total`          from_string: ok, MagnetError or URLError for every string and oracle.
+  * `C08_magnet_total`          from_string: ok, MagnetError or URLError for every string and oracle
+                                (`parse_qs` an oracle that yields no empty value list).
+  Round 2 (`parse_qs` modelled in Model/QueryString.lean; hostile strings in validated fields):
+  * `C08_parse_qs_total`, `C08_parse_qs_nonempty`, `C08_parse_qs_field_count`,
+    `C08_parse_qs_raises_value`   the modelled `parse_qs`: total with the arguments the code passes,
+                                for any number of fields; no empty value list; the field count of
+                                the `max_num_fields` test is the number of fields of the loop.
+  * `C08_magnet_documented`     from_string with the modelled `parse_qs`: ok, MagnetError or URLError
+                                for every string — no hypothesis.  `C08_magnet_modelled_qs` links it
+                                to `fromString`.
+  * `C08_magnet_field_limit_irrelevant`, `C08_magnet_field_limit_raises`, `C08_magnet_strict_raises`
+                                a field limit that is not exceeded changes nothing; every finite
+                                limit and strict parsing make from_string raise a bare ValueError on
+                                some URI (why the code must keep the defaults).
+  * `C08_md5sum_iff`, `C08_md5sum_rejects`, `C08_isHex_ascii`, `C08_md5sum_branch`,
+    `C08_md5sum_branch_non_ascii`, `C08_md5sum_single`, `C08_md5sum_file`
+                                `is_md5sum` over code points; the md5sum rule of validate() answers
+                                pass or MetainfoError for every value, MetainfoError for every
+                                string with a non-ASCII character.
+  * `C08_returned_infohash`     infohash of any torrent: bytes or MetainfoError (hyp. D07f).
   * `C08_read_steps`            steps of the decoder ≤ 3·|bs| + 2.
   Partial: CPython's actual time and memory are measured by the harness, not proved.
 -/
 import Torf.Lemmas.Untrusted
+import Torf.Lemmas.QueryString
 import Torf.Properties.C07
 namespace Torf.C08
 open Torf Torf.Bencode Torf.Untrusted
@@ -246,14 +266,239 @@ theorem C08_magnet_total (o : MagnetOracle) (uri : String)
     dsimp only
     split
     · right; left; rfl
-    · split
-      · right; left; rfl
-      · cases hw : withXt o (o.parseQs query) with
-        | ok m => left; exact ⟨m, rfl⟩
-        | error e =>
-          rcases withXt_err hq' hw with h | h <;> subst h
-          · right; left; rfl
-          · right; right; rfl
+    · cases hw : afterQs o (o.parseQs query) with
+      | ok m => left; exact ⟨m, rfl⟩
+      | error e =>
+        rcases afterQs_err hq' hw with h | h <;> subst h
+        · right; left; rfl
+        · right; right; rfl
+
+/-! ### round 2: `parse_qs` modelled — any number of fields, no field limit, no strict parsing -/
+
+/-- `parse_qs(query)` as `from_string` calls it (no `max_num_fields`, no `strict_parsing`) returns
+    for **every** query, whatever its number of fields, separators, blank values and escapes. -/
+theorem C08_parse_qs_total (pct : String → String) (qs : String) :
+    parseQsE pct {} qs = .ok (parseQs pct qs) :=
+  parseQsE_default pct qs
+
+/-- What `parse_qs` returns has no empty value list, under every option: the former hypothesis
+    `QsNonempty` of `C08_magnet_total` is a property of the modelled function. -/
+theorem C08_parse_qs_nonempty (pct : String → String) (o : QsOpts) (qs : String)
+    (q : List (String × List String)) (h : parseQsE pct o qs = .ok q) : QsNonempty q :=
+  parseQsE_nonempty h
+
+/-- The number the `max_num_fields` test compares is the number of fields the loop of `parse_qsl`
+    iterates over — blank fields and blank values included. -/
+theorem C08_parse_qs_field_count (qs : List Char) : (fields qs).length = numFields qs :=
+  fields_length qs
+
+/-- `from_string` with the modelled `parse_qs` is `from_string` with that function as oracle. -/
+theorem C08_magnet_modelled_qs (o : MagnetOracle) (pct : String → String) (uri : String)
+    (hq : o.parseQs = parseQs pct) : fromStringQ o pct {} uri = fromString o uri := by
+  unfold fromStringQ fromString
+  cases o.urlparse uri with
+  | none => rfl
+  | some sq =>
+    obtain ⟨scheme, query⟩ := sq
+    dsimp only
+    split
+    · rfl
+    · rw [C08_parse_qs_total, hq]
+
+/-- **`Magnet.from_string` on an arbitrary string: a magnet, MagnetError or URLError** — for every
+    number of `&`-separated fields, with `parse_qs` modelled; no hypothesis left
+    (`C08_magnet_total`'s `QsNonempty` is discharged by `C08_parse_qs_nonempty`). -/
+theorem C08_magnet_documented (o : MagnetOracle) (pct : String → String) (uri : String) :
+    (∃ m, fromStringQ o pct {} uri = .ok m) ∨ fromStringQ o pct {} uri = .error .magnet ∨
+    fromStringQ o pct {} uri = .error .url := by
+  unfold fromStringQ
+  cases o.urlparse uri with
+  | none => right; left; rfl
+  | some sq =>
+    obtain ⟨scheme, query⟩ := sq
+    dsimp only
+    split
+    · right; left; rfl
+    · rw [C08_parse_qs_total]
+      dsimp only
+      cases hw : afterQs o (parseQs pct query) with
+      | ok m => left; exact ⟨m, rfl⟩
+      | error e =>
+        rcases afterQs_err (parseQs_nonempty pct query) hw with h | h <;> subst h
+        · right; left; rfl
+        · right; right; rfl
+
+/-- A field limit that the query does not exceed changes nothing: below the limit the result of
+    `from_string` does not depend on it. -/
+theorem C08_magnet_field_limit_irrelevant (o : MagnetOracle) (pct : String → String) (n : Nat)
+    (strict : Bool) (uri : String)
+    (hn : ∀ s q, o.urlparse uri = some (s, q) → numFields q.toList ≤ n) :
+    fromStringQ o pct { maxNumFields := some n, strictParsing := strict } uri =
+    fromStringQ o pct { maxNumFields := none, strictParsing := strict } uri := by
+  unfold fromStringQ
+  cases hu : o.urlparse uri with
+  | none => rfl
+  | some sq =>
+    obtain ⟨scheme, query⟩ := sq
+    have := hn scheme query hu
+    dsimp only
+    split
+    · rfl
+    · unfold parseQsE parseQsl
+      dsimp only
+      rw [if_neg (by omega)]
+
+/-- **Any finite field limit breaks the property**: a magnet URI whose query has more fields than
+    `max_num_fields` makes `parse_qs` raise a bare ValueError outside every `try` of
+    `from_string`.  (Why the code must not pass `max_num_fields`; the harness generates queries
+    of 0, 1, 10, 100, 999…1002 and several thousand fields.) -/
+theorem C08_magnet_field_limit_raises (o : MagnetOracle) (pct : String → String) (n : Nat)
+    (strict : Bool) (uri query : String) (hu : o.urlparse uri = some ("magnet", query))
+    (hn : n < numFields query.toList) :
+    fromStringQ o pct { maxNumFields := some n, strictParsing := strict } uri =
+      .error (.internal "ValueError") := by
+  unfold fromStringQ
+  rw [hu]
+  dsimp only
+  rw [if_neg (by decide)]
+  unfold parseQsE parseQsl
+  dsimp only
+  rw [if_pos hn]
+  rfl
+
+/-- non-vacuity: `'&' * n` (n ≥ 1) has n + 1 fields — 1000 ampersands exceed a limit of 1000 -/
+example (n : Nat) (h : 0 < n) : n < numFields (String.ofList (List.replicate n '&')).toList := by
+  rw [String.toList_ofList, numFields_replicate n h]; omega
+
+/-- **Strict parsing breaks the property**: a field without `=` (here the whole query `xt`)
+    raises ValueError. -/
+theorem C08_magnet_strict_raises (o : MagnetOracle) (pct : String → String) (uri query : String)
+    (hu : o.urlparse uri = some ("magnet", query))
+    (hq : ∃ nv rest, fields query.toList = nv :: rest ∧ splitFirst '=' nv [] = none) :
+    fromStringQ o pct { strictParsing := true } uri = .error (.internal "ValueError") := by
+  obtain ⟨nv, rest, hf, hnv⟩ := hq
+  unfold fromStringQ
+  rw [hu]
+  dsimp only
+  rw [if_neg (by decide)]
+  unfold parseQsE parseQsl
+  dsimp only
+  rw [hf, qslLoop_error_head pct _ nv rest [] .value (qslField_strict_noeq pct nv hnv)]
+  rfl
+
+example : ∃ nv rest, fields "xt".toList = nv :: rest ∧ splitFirst '=' nv [] = none :=
+  ⟨['x', 't'], [], by decide, by decide⟩
+
+/-- Whatever options are passed, the only thing `parse_qs` raises is ValueError. -/
+theorem C08_parse_qs_raises_value (pct : String → String) (o : QsOpts) (qs : String) (r : Raise)
+    (h : parseQsE pct o qs = .error r) : r = .value := by
+  unfold parseQsE at h
+  split at h
+  · cases h; exact parseQsl_err (by assumption)
+  · cases h
+
+/-! ### round 2: hostile strings in validated fields — `md5sum`, `infohash` -/
+
+/-- `is_md5sum` on a `str`, over code points: exactly 32 characters `[0-9a-fA-F]`, optionally
+    followed by one newline (`$` of the regular expression). -/
+theorem C08_md5sum_iff (s : String) :
+    Validate.isMd5sum (.str s) = true ↔
+      (s.toList.take 32).length = 32 ∧ (∀ c ∈ s.toList.take 32, Validate.isHex c = true) ∧
+      (s.toList.drop 32 = [] ∨ s.toList.drop 32 = ['\n']) := by
+  simp [Validate.isMd5sum, List.all_eq_true, and_assoc]
+
+/-- a character that is neither a hexadecimal digit nor a newline — every non-ASCII character,
+    full-width digits, NUL — anywhere in the string makes `is_md5sum` false -/
+theorem C08_md5sum_rejects (s : String) (c : Char) (hc : c ∈ s.toList)
+    (hx : Validate.isHex c = false) (hn : c ≠ '\n') : Validate.isMd5sum (.str s) = false := by
+  cases h : Validate.isMd5sum (.str s) with
+  | false => rfl
+  | true =>
+    exfalso
+    obtain ⟨_, hall, hrest⟩ := (C08_md5sum_iff s).1 h
+    rw [← List.take_append_drop 32 s.toList] at hc
+    rcases List.mem_append.1 hc with h1 | h2
+    · rw [hall c h1] at hx; cases hx
+    · rcases hrest with h' | h'
+      · rw [h'] at h2; cases h2
+      · rw [h'] at h2; simp at h2; exact hn h2
+
+/-- no character outside ASCII is a hexadecimal digit -/
+theorem C08_isHex_ascii (c : Char) (h : Validate.isHex c = true) : c.toNat < 128 := by
+  unfold Validate.isHex at h
+  simp only [Bool.or_eq_true, Bool.and_eq_true, decide_eq_true_eq] at h
+  have e9 : ('9' : Char).toNat = 57 := rfl
+  have ef : ('f' : Char).toNat = 102 := rfl
+  have eF : ('F' : Char).toNat = 70 := rfl
+  rcases h with (⟨_, h⟩ | ⟨_, h⟩) | ⟨_, h⟩ <;>
+    · have := Char.le_def.1 h
+      simp only [Char.toNat, UInt32.le_iff_toNat_le] at *
+      omega
+
+/-- **the md5sum branch of `validate()`**: whatever value sits at `md5sum` — any decoded type, any
+    string — the check answers "passes" or MetainfoError, nothing else … -/
+theorem C08_md5sum_branch (v : PyVal) :
+    Validate.checkVal md5Rule v = .ok () ∨ Validate.checkVal md5Rule v = .error .metainfo := by
+  unfold Validate.checkVal
+  split
+  · left; rfl
+  · right; rfl
+
+/-- … and it is MetainfoError for every string with a character outside ASCII. -/
+theorem C08_md5sum_branch_non_ascii (s : String) (c : Char) (hc : c ∈ s.toList) (hn : 128 ≤ c.toNat) :
+    Validate.checkVal md5Rule (.str s) = .error .metainfo := by
+  have hx : Validate.isHex c = false := by
+    cases h : Validate.isHex c with
+    | false => rfl
+    | true => have := C08_isHex_ascii c h; omega
+  have hnl : c ≠ '\n' := by
+    intro h; subst h
+    have : ('\n' : Char).toNat = 10 := rfl
+    omega
+  have := C08_md5sum_rejects s c hc hx hnl
+  simp [Validate.checkVal, Validate.passes, md5Rule, this]
+  rfl
+
+/-- the value `validate()` hands to the check in the single-file branch is `info['md5sum']` -/
+theorem C08_md5sum_single (items info : Items) (v : PyVal)
+    (hi : PyVal.lookupStr "info" items = some (.dict info))
+    (hv : PyVal.lookupStr "md5sum" info = some v) :
+    Validate.assertType (.dict items) [.s "info", .s "md5sum"] md5Rule = Validate.checkVal md5Rule v := by
+  simp [Validate.assertType, Validate.getItem, Validate.lookupKey, hi, Validate.assertFinal,
+    Validate.keyExists, hv, bind, Except.bind, pure, Except.pure]
+
+/-- … and in the multi-file branch `info['files'][i]['md5sum']` -/
+theorem C08_md5sum_file (items info e : Items) (l : List PyVal) (i : Nat) (v : PyVal)
+    (hi : PyVal.lookupStr "info" items = some (.dict info))
+    (hf : PyVal.lookupStr "files" info = some (.list l)) (he : l[i]? = some (.dict e))
+    (hv : PyVal.lookupStr "md5sum" e = some v) :
+    Validate.assertType (.dict items) [.s "info", .s "files", .i i, .s "md5sum"] md5Rule =
+      Validate.checkVal md5Rule v := by
+  simp [Validate.assertType, Validate.getItem, Validate.lookupKey, hi, hf, he, Validate.assertFinal,
+    Validate.keyExists, hv, bind, Except.bind, pure, Except.pure]
+
+/-- non-vacuity / the seeded inputs: 32 × `ä`, 31 hex digits + `é`, 32 full-width zeros are
+    refused, a digest and a digest + newline pass -/
+example : Validate.isMd5sum (.str (String.ofList (List.replicate 32 'ä'))) = false ∧
+    Validate.isMd5sum (.str "d41d8cd98f00b204e9800998ecf8427é") = false ∧
+    Validate.isMd5sum (.str (String.ofList (List.replicate 32 '０'))) = false ∧
+    Validate.isMd5sum (.str "d41d8cd98f00b204e9800998ecf8427e") = true ∧
+    Validate.isMd5sum (.str "d41d8cd98f00b204e9800998ecf8427e\n") = true := by decide +kernel
+
+/-- `infohash` of a torrent (in particular of every returned one): the bytes to hash or
+    MetainfoError; only hypothesis `filesNotMapping t` (finding D07f), as for validate()/dump(). -/
+theorem C08_returned_infohash (env : Env) (t : Items)
+    (hf : Validate.filesNotMapping t = true) :
+    (∃ b, infohashT env t = .ok b) ∨ infohashT env t = .error .metainfo := by
+  unfold infohashT
+  cases h : Validate.infoBytes env.urlOk Validate.noPath t with
+  | ok b => left; exact ⟨b, rfl⟩
+  | error e =>
+    right
+    have ho : Validate.outsideD07f Validate.noPath t = true := by
+      simp [Validate.outsideD07f, hf, Validate.noPath]
+    have := C07.C07_only_metainfo_error_infohash_partial env.urlOk Validate.noPath t e ho h
+    subst this; rfl
 
 /-- The decoder is linear: one unit per input byte, per iteration of the outer loop and per
     iteration of the inner pop loop add up to at most 3·|bs| + 2. -/
